@@ -31,10 +31,28 @@ def gen_case(ctx):
         ens = ['A', 'B', 'C'][e]
         nrep = rng.choice([1, 1, 2, 3])
         g = None
+        prev_il = None
         for r in range(nrep):
             n = rng.randint(5, 60) if rng.random() < 0.8 else rng.randint(5, 9)
             kind = rng.choice(['contig', 'strided', 'gapped', 'irregular'])
             il = gen_idl(rng, n, kind)
+            if r > 0 and rng.random() < 0.3 and prev_il is not None and len(prev_il) >= 6 and (prev_il[-1] - prev_il[0] + 1) > len(prev_il):
+                # a replica with the same number of configurations, the same first and last one and the same spacing
+                # as its predecessor, but with the holes elsewhere
+                import math as _m
+                pl = list(prev_il)
+                g_ = 0
+                for a_, b_ in zip(pl, pl[1:]):
+                    g_ = _m.gcd(g_, b_ - a_)
+                grid = list(range(pl[0] + g_, pl[-1], g_))
+                if len(grid) > len(pl) - 2:
+                    cand = [pl[0]] + sorted(rng.sample(grid, len(pl) - 2)) + [pl[-1]]
+                    g2_ = 0
+                    for a_, b_ in zip(cand, cand[1:]):
+                        g2_ = _m.gcd(g2_, b_ - a_)
+                    if g2_ == g_ and len(set(b_ - a_ for a_, b_ in zip(cand, cand[1:]))) > 1:
+                        il = cand
+            prev_il = list(il)
             name = '%s|r%d' % (ens, r + 1) if (nrep > 1 or rng.random() < 0.6) else ens
             reps.append({'name': name, 'idl': dump_idl(il),
                          'samples': [float(x).hex() for x in gen_data(rng, nprng, len(il))]})
